@@ -96,13 +96,14 @@ Theorem C12_all_calls_return :
 Proof. exact all_calls_return. Qed.
 Print Assumptions C12_all_calls_return.
 
-(** after ServerClose has returned: the listening socket is closed and, for the pooled server, the pool
-    is stopped and none of its workers is alive *)
+(** after ServerClose has returned: the listening socket is closed, the serving thread has left its loop and,
+    for the pooled server, the pool is stopped and none of its workers is alive *)
 Theorem C12_closed_state :
   forall (k : kind) (h : list op) (sched : list actor),
   legal k h = true ->
   let s := lrun k sched (linit h) in
   close_returned s = true ->
-  socket_open s = false /\ (is_pooled k = true -> pool_running s = false /\ idle s + in_flight s = 0).
+  socket_open s = false /\ loop_running s = false
+  /\ (is_pooled k = true -> pool_running s = false /\ idle s + in_flight s = 0).
 Proof. exact closed_state. Qed.
 Print Assumptions C12_closed_state.
